@@ -55,6 +55,27 @@ def _gen(ctx, with_push):
             if len(kept) >= num:
                 break
         add(W, N, kept)
+    # 4. model-independent histories (no TLC behaviour behind them, the monitor judges whatever is observed):
+    #    stragglers - one message overtaken by a whole window and more of its successors - and random open orders
+    #    with retries.  A key that is dropped, or a window that stops following, only shows on histories longer
+    #    than the exhaustive bounds above.
+    def blind(W, N, steps):
+        groups.setdefault((W, N), []).append({"id": nid[0], "cfg": {"W": W, "N": N}, "steps": steps, "blind": True})
+        nid[0] += 1
+
+    def op(act, x=0):
+        return {"act": act, "d": "d1", "x": x, "res": {}}
+    for (W, N) in ([(1, 1), (2, 1), (3, 2), (100, 100)] if quick else [(1, 1), (2, 1), (2, 2), (3, 2), (4, 3), (100, 100)]):
+        n = 2 * W + 3
+        head = [op("announce"), op("register", 0)] + [op("seal") for _ in range(n)]
+        for j in range(1, min(W, 3) + 1):
+            # everything but j in increasing order (each is inside the window when its turn comes), then j, then all again
+            order = [k for k in range(1, n + 1) if k != j] + [j]
+            blind(W, N, head + [op("open", k) for k in order] + [op("open", k) for k in range(1, n + 1)])
+        if W <= 4:
+            for _ in range(20 if quick else 200):
+                seq = [ctx.rng.randint(1, n) for _ in range(3 * n)]
+                blind(W, N, head + [op("open", k) for k in seq] + [op("open", k) for k in list(range(1, n + 1)) * 2])
     return groups
 
 
